@@ -66,6 +66,10 @@ def run(ctx):
         from ofxtools.header import make_header
         body = dc.render_text(doc, "xml" if version >= 200 else rnd.choice(["xml", "sgml"]))
         jobs.append(("parse", list((str(make_header(version)) + body).encode("utf8"))))
+        if doc and doc[0]["tag"] == "OFX" or rnd.random() < 0.1:
+            data = list((str(make_header(version)) + body).encode("utf8"))
+            jobs.append(("treeconvert", {"data": data, "again": False}))
+            jobs.append(("treeconvert", {"data": data, "again": True}))
     for text in ["20200102030405.123[-5:EST]", "20200102", "20200102030405[+5.30]", "19991231235959.999[-0.30:X]", "20201301", "x"]:
         jobs.append(("conv", {"type": "DateTime", "text": text}))
     for text in ["030405.123[-5:EST]", "235959", "2460"]:
@@ -95,6 +99,78 @@ def run(ctx):
             jobs.append(("convert", xml))
             jobs.append(("to_etree", {"xml": xml}))
             jobs.append(("serialize", {"xml": xml, "version": 203, "pretty": False, "close": True}))
+    # directed: classes with several repeated children, members in declaration order and reversed within every run
+    # (writing must not reorder the instance)
+    import c13 as _c13
+    import copy as _copy
+    for cls in sorted(schema):
+        attrs = schema[cls]["attrs"]
+        li = [i for i, a in enumerate(attrs) if a["k"] in ("lagg", "lelem")]
+        if len(li) < 2 or cls not in mins:
+            continue
+        node = _copy.deepcopy(mins[cls])
+        for a in attrs[li[0]:li[-1] + 1]:
+            if a["k"] in ("lagg", "lelem") or (a["k"] == "elem" and not a["req"] and rnd.random() < 0.5):
+                try:
+                    node = add_child(node, cls, a, schema, types, mins)
+                except Exception:
+                    pass
+        ltags = {a["tag"] for a in attrs if a["k"] in ("lagg", "lelem")}
+        rev = _copy.deepcopy(node)
+        members = [k for k in rev[2] if k[0] in ltags]
+        others = [k for k in rev[2] if k[0] not in ltags]
+        rev[2] = others[:0] + [k for k in rev[2]]
+        # all members reversed as ONE sequence (legal wherever the reader does not order list members among themselves)
+        it = iter(members[::-1])
+        rev[2] = [next(it) if k[0] in ltags else k for k in rev[2]]
+        # ... and all members next to each other where the first repeated child is declared, interleaved and reversed
+        laggs = [a for a in attrs if a["k"] == "lagg" and a["cls"] in mins]
+        inter = None
+        if len(laggs) >= 2:
+            idx = {x["tag"]: i for i, x in enumerate(attrs)}
+            base_kids = [k for k in _copy.deepcopy(mins[cls])[2] if k[0] not in ltags]
+            mem = [_copy.deepcopy(mins[a["cls"]]) for a in laggs[::-1]] + [_copy.deepcopy(mins[laggs[-1]["cls"]])]
+            pos = len([k for k in base_kids if idx.get(k[0], 10 ** 6) < li[0]])
+            inter = [cls, None, base_kids[:pos] + mem + base_kids[pos:]]
+        for n_ in (node, rev) + ((inter,) if inter else ()):
+            try:
+                xml = dc.render_text(dc.from_nested(n_), "xml")
+                ET.fromstring(xml)
+            except Exception:
+                continue
+            jobs.append(("convert", xml))
+            jobs.append(("to_etree", {"xml": xml}))
+            jobs.append(("serialize", {"xml": xml, "version": 203, "pretty": False, "close": True}))
+    # directed: deeply nested documents (a statement response down to the transaction's security id), for the threaded runs
+    def deepen(path, leafcls):
+        node = _copy.deepcopy(mins[leafcls])
+        for pcls, attr in reversed(path):
+            a = next(x for x in schema[pcls]["attrs"] if x["a"] == attr)
+            par = add_child(mins[pcls], pcls, a, schema, types, mins)
+            par[2] = [node if k[0] == a["tag"] else k for k in par[2]]
+            node = par
+        return node
+    deep = []
+    try:
+        for k in range(4):
+            dnode = deepen([("OFX", "invstmtmsgsrsv1"), ("INVSTMTMSGSRSV1", "invstmttrnrs"), ("INVSTMTTRNRS", "invstmtrs"), ("INVSTMTRS", "invtranlist"),
+                            ("INVTRANLIST", rnd.choice(["buystock", "sellstock", "buymf"]))], "BUYSTOCK")
+            deep.append(dc.render_text(dc.from_nested(dnode), "xml"))
+    except Exception as ex:
+        ctx.extra["deep_documents_error"] = repr(ex)[:200]
+    deep = []
+    for leaf, attr in (("BUYSTOCK", "buystock"), ("SELLSTOCK", "sellstock"), ("BUYMF", "buymf"), ("INCOME", "income")):
+        try:
+            dnode = deepen([("OFX", "invstmtmsgsrsv1"), ("INVSTMTMSGSRSV1", "invstmttrnrs"), ("INVSTMTTRNRS", "invstmtrs"), ("INVSTMTRS", "invtranlist"),
+                            ("INVTRANLIST", attr)], leaf)
+            xml = dc.render_text(dc.from_nested(dnode), "xml")
+            ET.fromstring(xml)
+            deep.append(xml)
+        except Exception as ex:
+            ctx.extra["deep_documents_error"] = repr(ex)[:200]
+    ctx.extra["deep_documents"] = len(deep)
+    for xml in deep:
+        jobs.append(("convert", xml))
     # directed: the same instant written in different zones (equal as values, different as texts), in every order
     for inst_ in ("2020,1,2,3,4,5,678900", "1999,12,31,23,59,59,999999", "2024,2,29,12,0,0,0"):
         for off, nm in ((0, "UTC"), (-300, "EST"), (330, "IST"), (840, "LINT"), (-30, "X")):
@@ -181,7 +257,8 @@ def run(ctx):
             barrier = threading.Barrier(nthreads)
 
             def work(k, nthreads=nthreads):
-                mine = list(jobs[: (200 if quick else 1200)]) + [("convert", x) for x in heavy] * (6 if quick else 20) \
+                mine = list(jobs[: (200 if quick else 1200)]) + [("convert", x) for x in deep] * (12 if quick else 40) \
+                    + [("convert", x) for x in heavy] * (6 if quick else 20) \
                     + [("to_etree", {"xml": x}) for x in heavy] * (2 if quick else 6)
                 random.Random(k).shuffle(mine)
                 barrier.wait()
